@@ -107,7 +107,7 @@ func (w *c15World) shutdown(acc chain.Account) (string, string) { return w.shutd
 func (w *c15World) shutdownAs(acc chain.Account, spelled string) (string, string) {
 	before := w.f.Snapshot()
 	amount, was := w.recorded[spelled]
-	res := w.f.Exec(storagetypes.NewMsgShutdownProvider(spelled))
+	res := w.f.Exec(newMsgShutdownProvider(spelled))
 	after := w.f.Snapshot()
 	w.logf("shutdown by acc%d (recorded %d, registered=%v) -> %s", acc.Index, amount, was, res)
 	diff := before.Diff(after)
